@@ -200,6 +200,8 @@ def run(ctx):
     # R13.3: effect table
     opt_calls = {}
 
+    neighbour_changed = []
+
     def expr_hook(node, env):
         if isinstance(node, ast.Call) and isinstance(node.func, ast.Attribute) and \
                 isinstance(node.func.value, ast.Name) and node.func.value.id == "self":
@@ -208,7 +210,18 @@ def run(ctx):
                 if a0 != "%s['name']" % tok_name:
                     raise AnalysisError("omission predicate is not asked about the current token: %s" % norm(node))
                 opt_calls[node.func.attr] = norm(node)
+                # the neighbours the rules are asked about are the stream's own tokens
+                for a in node.args[1:]:
+                    if isinstance(a, ast.Name) and a.id in (pv_name, nx_name) and "__orig_" + a.id in env and env[a.id] is not env["__orig_" + a.id]:
+                        neighbour_changed.append(a.id)
                 return env["__" + node.func.attr]
+            # a pure helper method of the filter (one level)
+            h = it.cls.find_method(node.func.attr) if it.cls is not None else None
+            if h is not None and not node.keywords and len(h.params()) == len(node.args) + 1:
+                args = [ctx.ce.eval(a, it.module, env) for a in node.args]
+                sub = MiniInterp(ctx.ce, it.module, expr_hook=expr_hook).run(h.node.body, dict(zip(h.params()[1:], args), self=Opaque("self")))
+                if sub.returned and not sub.effects and not isinstance(sub.value, Opaque):
+                    return sub.value
             raise AnalysisError("unexpected call %s" % norm(node))
         return NotImplemented
     interp = MiniInterp(ctx.ce, it.module, expr_hook=expr_hook)
@@ -224,9 +237,19 @@ def run(ctx):
                     if data and os_ and omitted_with_attrs == []:
                         continue        # the predicate is told about the attributes and never approves a tag that has some
                     tok = {"type": ty, "name": "x", "data": data, "namespace": NS[nsk]}
-                    env = {tok_name: tok, pv_name: None, nx_name: None, "self": Opaque("self"),
+                    # the following token is in the SVG namespace: the rules must be asked about *it* ("</p> before an svg
+                    # start tag" is not "no more content")
+                    nxt = {"type": "StartTag", "name": "svg", "namespace": NS["svg"], "data": {}}
+                    env = {tok_name: tok, pv_name: None, nx_name: nxt, "__orig_" + nx_name: nxt, "__orig_" + pv_name: None, "self": Opaque("self"),
                            "__is_optional_start": os_, "__is_optional_end": oe}
+                    del neighbour_changed[:]
                     out = interp.run(loop.body, env)
+                    if neighbour_changed:
+                        r.bad("R13.3", "neighbour-passed-on[type=%s ns=%s]" % (ty, nsk), it.where,
+                              "the omission rules are not asked about the real neighbour: a following tag in the SVG / MathML namespace is "
+                              "replaced (by %r) before is_optional_* sees it -- `None` means \"no more content in the parent\", so `</p>` (li, "
+                              "td, ...) directly before <svg> is dropped and the svg re-parses inside the p" % (out.env.get(nx_name),))
+                        continue
                     ys = [e for e in out.effects if isinstance(e.node, ast.Expr) and isinstance(e.node.value, ast.Yield)]
                     others = [e for e in out.effects if e not in ys]
                     if others:
